@@ -48,24 +48,31 @@ def log(msg):
 
 
 # ---------------------------------------------------------------------------------------- build
-def _tree_hash():
-    h = hashlib.sha256()
-    roots = [os.path.join(REPO, 'include'), os.path.join(VERIF, 'harness')]
-    for root in roots:
-        for d, dirs, files in sorted(os.walk(root)):
-            dirs.sort()
-            for f in sorted(files):
-                p = os.path.join(d, f)
-                h.update(os.path.relpath(p, root).encode())
-                with open(p, 'rb') as fh:
-                    h.update(fh.read())
-    return h
+_HASH_CACHE = {}
 
 
-def build_dir(flavour):
-    h = _tree_hash()
-    h.update(' '.join(COMMON_FLAGS + FLAVOURS[flavour]).encode())
-    return os.path.join(BUILD, '%s-%s' % (flavour, h.hexdigest()[:16]))
+def _hash_dir(h, root):
+    for d, dirs, files in sorted(os.walk(root)):
+        dirs.sort()
+        for f in sorted(files):
+            p = os.path.join(d, f)
+            h.update(os.path.relpath(p, root).encode())
+            with open(p, 'rb') as fh:
+                h.update(fh.read())
+
+
+def build_dir(flavour, harness):
+    """one directory per (flavour, harness, hash of /repo/include + harness/common + the harness source + flags)"""
+    key = (flavour, harness)
+    if key not in _HASH_CACHE:
+        h = hashlib.sha256()
+        _hash_dir(h, os.path.join(REPO, 'include'))
+        _hash_dir(h, os.path.join(VERIF, 'harness', 'common'))
+        with open(os.path.join(VERIF, 'harness', harness + '.cpp'), 'rb') as fh:
+            h.update(fh.read())
+        h.update(' '.join(COMMON_FLAGS + FLAVOURS[flavour]).encode())
+        _HASH_CACHE[key] = os.path.join(BUILD, '%s-%s-%s' % (flavour, harness, h.hexdigest()[:16]))
+    return _HASH_CACHE[key]
 
 
 def _compile(harness, kind, flavour, bdir):
@@ -96,9 +103,11 @@ def prune_builds(keep_dirs):
     by_fl = {}
     for d in os.listdir(BUILD):
         p = os.path.join(BUILD, d)
-        if not os.path.isdir(p) or '-' not in d:
+        if not os.path.isdir(p) or d.count('-') < 2:
+            if os.path.isdir(p) and d != 'tmp':
+                shutil.rmtree(p, ignore_errors=True)   # directories of an older layout
             continue
-        by_fl.setdefault(d.split('-')[0], []).append(p)
+        by_fl.setdefault(d.rsplit('-', 1)[0], []).append(p)
     for fl, dirs in by_fl.items():
         dirs.sort(key=lambda p: os.path.getmtime(p), reverse=True)
         for p in dirs[3:]:
@@ -110,21 +119,21 @@ def build(needed):
     """needed: iterable of (harness, kind, flavour). Returns {(h,k,f): path}. Exits 2 on failure."""
     needed = sorted(set(needed))
     os.makedirs(BUILD, exist_ok=True)
-    dirs = {fl: build_dir(fl) for fl in set(n[2] for n in needed)}
+    dirs = {(n[2], n[0]): build_dir(n[2], n[0]) for n in needed}
     for d in dirs.values():
         os.makedirs(d, exist_ok=True)
     result = {}
     lockf = open(os.path.join(BUILD, '.lock'), 'w')
     fcntl.flock(lockf, fcntl.LOCK_EX)
     try:
-        todo = [n for n in needed if not os.path.exists(os.path.join(dirs[n[2]], '%s_%s' % (n[0], n[1])))]
+        todo = [n for n in needed if not os.path.exists(os.path.join(dirs[(n[2], n[0])], '%s_%s' % (n[0], n[1])))]
         if todo:
             log('[build] compiling %d harness binaries from %s/include (flavours: %s)' %
                 (len(todo), REPO, ','.join(sorted(set(n[2] for n in todo)))))
         t0 = time.time()
         failed = []
         with ThreadPoolExecutor(max_workers=NCPU) as ex:
-            futs = {ex.submit(_compile, n[0], n[1], n[2], dirs[n[2]]): n for n in todo}
+            futs = {ex.submit(_compile, n[0], n[1], n[2], dirs[(n[2], n[0])]): n for n in todo}
             for fut, n in futs.items():
                 out, dt, err = fut.result()
                 if out is None:
@@ -143,7 +152,7 @@ def build(needed):
         log('HARNESS-FAILURE: build failed')
         sys.exit(2)
     for n in needed:
-        result[n] = os.path.join(dirs[n[2]], '%s_%s' % (n[0], n[1]))
+        result[n] = os.path.join(dirs[(n[2], n[0])], '%s_%s' % (n[0], n[1]))
     return result
 
 
@@ -192,6 +201,17 @@ def classify_crash(stderr_text, returncode):
             what = re.sub(r'-?\d+(\.\d+)?(e[+-]?\d+)?', 'N', what)[:60].strip().replace(' ', '_')
             where = os.path.basename(m.group(1))
             return 'ubsan/%s@%s' % (what, where), ln.strip()[:300]
+    for i, ln in enumerate(lines):
+        m = re.search(r'==\d+== (Invalid (?:read|write) of size \d+|Conditional jump or move depends on uninitialised value|'
+                      r'Use of uninitialised value of size \d+|Invalid free|Mismatched free|Syscall param .* uninitialised)', ln)
+        if m:
+            fr = 'unknown'
+            for l2 in lines[i + 1:i + 40]:
+                m2 = re.search(r'(?:at|by) 0x[0-9A-F]+: (.*?) \((\S+?):(\d+)\)', l2)
+                if m2 and ('fastscapelib' in l2 and '.hpp' in m2.group(2)):
+                    fr = '%s:%s' % (m2.group(2), _short_func(m2.group(1)))
+                    break
+            return 'memcheck/%s@%s' % (re.sub(r'\d+', 'N', m.group(1)).replace(' ', '_'), fr), ln.strip()[:300]
     for ln in lines:
         if 'Assertion' in ln and 'failed' in ln:
             m = re.search(r"(\S+?):(\d+): (.*?): Assertion [`'](.*)' failed", ln)
@@ -247,6 +267,7 @@ class Job:
         self.prop, self.seed, self.shard, self.nshards, self.cases, self.tier = prop, seed, shard, nshards, cases, tier
         self.extra = list(extra or [])
         self.case_timeout = case_timeout
+        self.wrapper = []
         # results
         self.viol = []          # dicts: prop, key, k, witness
         self.stats = []         # STATS objects (one per process segment)
@@ -258,7 +279,7 @@ class Job:
         self.wall = 0.0
 
     def base_cmd(self):
-        return [self.binary, '--prop', self.prop, '--seed', str(self.seed), '--shard', str(self.shard), '--nshards',
+        return self.wrapper + [self.binary, '--prop', self.prop, '--seed', str(self.seed), '--shard', str(self.shard), '--nshards',
                 str(self.nshards), '--cases', str(self.cases), '--tier', self.tier] + self.extra
 
     def ident(self):
@@ -466,6 +487,7 @@ def main(argv):
             j = Job(bins[(r['harness'], r['kind'], r['flavour'])], r['harness'], r['kind'], r['flavour'],
                     r.get('prop', pid), seed, sh, r['nshards'], r['cases'], tier, r.get('extra'),
                     r.get('case_timeout', 180 if tier == 'quick' else 600))
+            j.wrapper = list(r.get('wrapper', []))
             j.weight = r.get('weight', 1)
             j.group = r.get('group', r['harness'])
             jobs.append(j)
@@ -539,6 +561,11 @@ def summarise(pid, tier, seed, spec, jobs, wall):
         seen_keys = set()
         for v in j.viol:
             vprop = v['prop']
+            if pid == 'C08' and vprop == 'C06' and v['key'] in ('receivers_count_range', 'donors_count_range',
+                                                               'receiver_index_range', 'donor_index_range', 'table_shapes'):
+                v = dict(v)
+                v['key'] = 'table_overflow/' + v['key']
+                v['prop'] = vprop = 'C08'
             if vprop != pid and not (pid == 'C08' and v['key'].startswith('crash:')):
                 if v['key'].startswith('crash:') or v['key'] == 'hang':
                     vprop = pid    # the call under test did not complete
